@@ -2,6 +2,7 @@
 
 #include <array>
 #include <cstring>
+#include <limits>
 #include <memory>
 #include <type_traits>
 #include <utility>
@@ -90,7 +91,16 @@ public:
 
     auto ret = UNSAFE_unverified();
     if (ret != nullptr) {
-      size_t bytes = sizeof(T) * count;
+      // The range is count elements of the pointee (not of the pointer itself).
+      // void and function pointees have no size; treat them as bytes.
+      using T_El = std::conditional_t<std::is_void_v<T_Pointed> ||
+                                        std::is_function_v<T_Pointed>,
+                                      char,
+                                      T_Pointed>;
+      detail::dynamic_check(
+        count <= std::numeric_limits<size_t>::max() / sizeof(T_El),
+        "unverified_safe_pointer_because: element count overflows");
+      size_t bytes = sizeof(T_El) * count;
       detail::check_range_doesnt_cross_app_sbx_boundary<T_Sbx>(ret, bytes);
     }
     return ret;
